@@ -264,7 +264,7 @@ macro_rules! macro_endpoints {
                 #[query(name = "async", log_as = "async")] async_: i32,
                 #[query(name = "camel-case", decoder = FromStrOptionDecoder, log_as = "camelCase", safe)] camel_case: Option<i32>,
                 #[header(name = "X-Self", log_as = "self")] self_: i32,
-                #[query(name = "snake_arg", decoder = FromStrSeqDecoder<_>)] snake_arg: Vec<i32>,
+                #[query(name = "snake_arg", log_as = "snakeArg", decoder = FromStrSeqDecoder<_>)] snake_arg: Vec<i32>,
                 #[header(name = "X-Match", decoder = FromStrOptionDecoder, log_as = "match", safe)] match_: Option<bool>,
             ) -> Result<String, Error>;
 
@@ -327,7 +327,7 @@ macro_rules! macro_handler {
             }
             $($asyncness)? fn names(&self, type_: i32, foo_bar: Uuid, async_: i32, camel_case: Option<i32>, self_: i32, snake_arg: Vec<i32>, match_: Option<bool>) -> Result<String, Error> {
                 self.rec.lock().unwrap().calls.push(json!({"endpoint": "names", "args": {"type": type_, "fooBar": jv(&foo_bar), "async": async_,
-                    "camelCase": camel_case, "self": self_, "snake_arg": snake_arg, "match": match_}}));
+                    "camelCase": camel_case, "self": self_, "snakeArg": snake_arg, "match": match_}}));
                 conjure_serde::json::client_from_str(&self.ret.to_string()).map_err(Error::internal_safe)
             }
             $($asyncness)? fn attrs(&self, a: Echo, b: Echo, c: i32, q: Echo, h: Echo, ls: Vec<String>) -> Result<String, Error> {
@@ -384,7 +384,7 @@ macro_rules! mac_calls {
                 "authCookie" => $w!(c.auth_cookie(&arg::<BearerToken>(args, "auth")?)).map(|v| json!(v)),
                 "unit" => $w!(c.unit(&arg::<String>(args, "body")?)).map(|()| Value::Null),
                 "names" => $w!(c.names(arg(args, "type")?, arg(args, "fooBar")?, arg(args, "async")?, arg(args, "camelCase")?, arg(args, "self")?,
-                    &arg::<Vec<i32>>(args, "snake_arg")?, arg(args, "match")?)).map(|v| json!(v)),
+                    &arg::<Vec<i32>>(args, "snakeArg")?, arg(args, "match")?)).map(|v| json!(v)),
                 "idsPath" => $w!(c.ids_path(arg(args, "ids")?)).map(|v| json!(v)),
                 "optRet" => $w!(c.opt_ret()).map(|v| json!(v)),
                 "attrs" => {
